@@ -152,7 +152,8 @@ pub fn needle_spec() -> impl Strategy<Value = NeedleSpec> {
         1 => Just(1usize),
         6 => 2usize..=32,
         3 => 33usize..=64,
-        3 => 65usize..=600,
+        6 => 65usize..=600,
+        1 => 601usize..=3000,
     ];
     (0u8..12, len, any::<u8>(), any::<u8>(), 1usize..=12, any::<u64>()).prop_map(|(kind, len, a, b, ulen, bits)| {
         let b = if b == a { a.wrapping_add(1) } else { b };
@@ -198,7 +199,7 @@ pub fn piece() -> impl Strategy<Value = Piece> {
         3 => (any::<u8>(), 1u16..=80).prop_map(|(b, n)| Piece::Foreign(b, n)),
         3 => ((1u16..=120), any::<u64>()).prop_map(|(n, s)| Piece::Noise(n, s)),
         2 => (50u8..=90).prop_map(Piece::FalseCandidates),
-        1 => (200u16..=2000).prop_map(Piece::LongQuiet),
+        1 => prop_oneof![4 => 200u16..=2000, 1 => 2001u16..=40000].prop_map(Piece::LongQuiet),
         2 => (0u16..=65535).prop_map(Piece::Rotation),
     ]
 }
@@ -371,7 +372,8 @@ pub fn len_cap(needle_len: usize, class: u8, f: u16) -> usize {
         4 => 63,                                          // < 64 one-shot route
         5 => needle_len + 24 + frac(f, 48),               // around the vector minimum
         6 => 64 + frac(f, 200),
-        _ => 4096,
+        7 | 8 => 4096,
+        _ => 70000,
     }
 }
 
